@@ -8,6 +8,7 @@ import (
 	"io"
 	"reflect"
 	"runtime"
+	"sort"
 	"strconv"
 	"strings"
 
@@ -35,7 +36,7 @@ func init() {
 		Quick: 5000, Thorough: 500000,
 		Run:        runC08,
 		Rule:       "one run = one generated (type, value, protocol in {binary strict, binary non-strict, compact}) whose encoding E decodes; evaluations = individual faulted decodes: EOF at every offset of E through bytes.Reader and through the simulated reader (both io.ByteReader flavours), a reader error at every offset (all offsets up to 512 bytes, sampled beyond), chunk schedules, 6 byte substitutions per offset, every length / element count set to negative, oversized and out-of-range values, foreign fields of 12 shapes x 4 undeclared ids at every field boundary of every struct level, trailing bytes, each required field removed, each declared top-level field given another wire type, direct Reader method calls on arbitrary bytes. non-trivial = E has at least 2 bytes; distinct = distinct hash of (type, protocol, E)",
-		FaultKinds: []string{"eof-at-offset(bytes.Reader)", "eof-at-offset(simulated reader)", "eof-at-offset(simulated ByteReader)", "reader-error-at-offset", "chunked-delivery", "rot(byte-substitution)", "size-negative", "size-oversized", "size-out-of-range", "foreign-field", "foreign-field-nested-level", "foreign-field-with-corrupted-size", "trailing-bytes", "required-field-removed", "failed-decode-then-decode", "long-lived-decoder", "large-binary(>64KiB)", "nested-required-field-removed", "nested-wire-type-changed(strict)", "wire-type-changed(strict)", "wire-type-changed(non-strict)", "element-type-changed(strict)", "reader-method-on-arbitrary-bytes", "scaling-probe(n vs 8n elements)", "inflated-count-on-a-long-collection", "protocol:binary", "protocol:binary-nonstrict", "protocol:compact", "cut-inside-length", "data+err"},
+		FaultKinds: []string{"eof-at-offset(bytes.Reader)", "eof-at-offset(simulated reader)", "eof-at-offset(simulated ByteReader)", "reader-error-at-offset", "chunked-delivery", "rot(byte-substitution)", "size-negative", "size-oversized", "size-out-of-range", "foreign-field", "foreign-field-nested-level", "foreign-field-with-corrupted-size", "trailing-bytes", "required-field-removed", "failed-decode-then-decode", "long-lived-decoder", "large-binary(>64KiB)", "nested-required-field-removed", "required-field-removed-while-another-is-repeated", "nested-wire-type-changed(strict)", "wire-type-changed(strict)", "wire-type-changed(non-strict)", "element-type-changed(strict)", "reader-method-on-arbitrary-bytes", "scaling-probe(n vs 8n elements)", "inflated-count-on-a-long-collection", "protocol:binary", "protocol:binary-nonstrict", "protocol:compact", "cut-inside-length", "data+err"},
 		ProbeNames: []string{"messages", "decoder-reset-after-failure", "strict-after-reset-checked", "precondition-failed(skipped)", "struct-levels>1", "E>=128B", "required-fields", "alloc-precise-samples", "eof-k0", "sites", "reference-parse-failed(structural operators skipped)"},
 		Real:       []string{"thrift.Unmarshal, thrift.Decoder (strict and non-strict), binary and compact Readers compiled from /repo's working tree with sync and sync/atomic redirected to the shim (deterministic simulated sync.Pool, pristine library state before every run)"},
 		Model:      []string{"storage/transport medium (fault operators over the encoded bytes)", "io.Reader (simio.Reader with and without io.ByteReader)", "reference thrift parser/serialiser for both protocols (verifsim/ref) used to locate sizes and struct levels and to build foreign fields, removed fields and retyped fields"},
@@ -85,7 +86,7 @@ type c08Mode struct {
 }
 
 func (c *c08Ctx) scenario(in, base []byte, expect string) *c08Scenario {
-	sc := &c08Scenario{Input: in, Base: base, Proto: c.pi, Expect: expect}
+	sc := &c08Scenario{Input: append([]byte(nil), in...), Base: base, Proto: c.pi, Expect: expect}
 	var shape int
 	var sp bool
 	if n, _ := fmt.Sscanf(c.ty.name, "thrift-shape-%d/%t", &shape, &sp); n == 2 {
@@ -95,6 +96,8 @@ func (c *c08Ctx) scenario(in, base []byte, expect string) *c08Scenario {
 	}
 	return sc
 }
+
+var c08Arena []byte
 
 // decode runs one decode with the no-panic and allocation monitors.
 func (c *c08Ctx) decode(in []byte, m c08Mode, op string) (x reflect.Value, err error, ok bool) {
@@ -127,6 +130,15 @@ func (c *c08Ctx) decode(in []byte, m c08Mode, op string) (x reflect.Value, err e
 		} else {
 			rd = sr
 		}
+	}
+	if rd == nil {
+		// the caller's one receive buffer: same address, new content every time
+		if cap(c08Arena) < len(in) {
+			c08Arena = make([]byte, 2*len(in)+64)
+		}
+		buf := c08Arena[:len(in):len(in)]
+		copy(buf, in)
+		in = buf
 	}
 	precise := c.calls%97 == 0
 	var before uint64
@@ -893,7 +905,36 @@ func runC08(r *core.Run) {
 			saved := tree.Fields
 			tree.Fields = nf
 			m := ref.ThriftAppend(nil, &tree, compact, stop3)
+			// the same with another required field present twice (a repeated header
+			// is legal on the wire; it does not stand in for the missing one)
+			var mdup []byte
+			for _, f := range nf {
+				isReq := false
+				for _, q := range required {
+					if int(f.ID) == q {
+						isReq = true
+					}
+				}
+				if isReq {
+					tree.Fields = append(append([]ref.TField(nil), nf...), f)
+					sort.SliceStable(tree.Fields, func(i, j int) bool { return tree.Fields[i].ID < tree.Fields[j].ID })
+					mdup = ref.ThriftAppend(nil, &tree, compact, stop3)
+					break
+				}
+			}
 			tree.Fields = saved
+			if mdup != nil {
+				_, err, ok := c.decode(mdup, c08Mode{}, "required-removed-other-duplicated")
+				if !ok {
+					return
+				}
+				r.Fault("required-field-removed-while-another-is-repeated")
+				var mf *thrift.MissingField
+				if !errors.As(err, &mf) {
+					fail("missing-field", "missing-required-not-reported", mdup, "missing-field", "required field %d removed and another required field present twice: expected *thrift.MissingField, got %v (%s, type %s)\ninput=%x", id, err, thriftProtoNames[pi], ty.name, clip(mdup, 300))
+					return
+				}
+			}
 			// history: a decode of the same type that fails after it has read the
 			// required fields comes first (state kept per type must not leak)
 			if len(e) > 1 {
